@@ -366,28 +366,62 @@ def _run_sharded(argv, lines, env=None, timeout=600):
         if got and got[-1] == "":
             got.pop()
         if len(got) != len(shards[i]):
-            # crashed or timed out: run one by one
-            got = []
-            for l in shards[i]:
-                try:
-                    r = subprocess.run(argv, input=l + "\n", stdout=subprocess.PIPE, stderr=subprocess.PIPE,
-                                       text=True, env=env, timeout=60)
-                    o = r.stdout.strip("\n")
-                    got.append(o if o else "CRASH\t" + (r.stderr[-400:] if r.stderr else "no output"))
-                except subprocess.TimeoutExpired:
-                    got.append("CRASH\ttimeout")
+            # crashed or timed out: the answers are written and flushed one per line, so the line that has no
+            # answer is the one that crashed; it is re-run alone (for its message) and the rest is resumed
+            got = _resume(argv, shards[i], got, env)
         for j, g in enumerate(got):
             result[i + j * n] = g
     return result
+
+
+def _run_alone(argv, l, env):
+    try:
+        r = subprocess.run(argv, input=l + "\n", stdout=subprocess.PIPE, stderr=subprocess.PIPE, text=True, env=env, timeout=60)
+    except subprocess.TimeoutExpired:
+        return "CRASH\ttimeout"
+    o = r.stdout.strip("\n")
+    er = r.stderr or ""
+    k = er.find("DATA RACE")
+    if k >= 0 and r.returncode == 66:
+        return "CRASH\t" + er[k:k + 700]                    # even if an answer was written
+    return o if o else "CRASH\t" + (er[-400:] if er else "no output")
+
+
+def _resume(argv, lines, got, env, max_crashes=40):
+    got = list(got[:len(lines)])
+    crashes = 0
+    while len(got) < len(lines):
+        got.append(_run_alone(argv, lines[len(got)], env))
+        crashes += 1
+        rest = lines[len(got):]
+        if not rest:
+            break
+        if crashes >= max_crashes:
+            got += [_run_alone(argv, l, env) for l in rest]
+            break
+        try:
+            r = subprocess.run(argv, input="\n".join(rest) + "\n", stdout=subprocess.PIPE, stderr=subprocess.PIPE, text=True,
+                               env=env, timeout=600)
+            more = r.stdout.split("\n")
+        except subprocess.TimeoutExpired as e:
+            more = (e.stdout or b"").decode("utf-8", "replace").split("\n") if isinstance(e.stdout, bytes) else (e.stdout or "").split("\n")
+        if more and more[-1] == "":
+            more.pop()
+        got += more[:len(rest)]
+    return got
 
 
 PROBE_DIFFS = []          # cases after which the harness's fixed probe changed (process-wide state was modified)
 PROBE_CASES = [0]
 
 
-def run_go(cases, binary=None):
+def run_go(cases, binary=None, race=False):
     lines = [json.dumps(c) for c in cases]
-    outs = _run_sharded([binary or HARNESS_BIN], lines, env=GOENV)
+    # on a -race build the first report ends the process (exit 66): the shard is then re-run case by case and the
+    # case that races is reported as a crash carrying the detector's report (without this the report would only
+    # go to stderr and the outputs would look fine)
+    env = dict(GOENV, GORACE="halt_on_error=1 exitcode=66") if race else GOENV
+    outs = _run_sharded([binary or HARNESS_BIN], lines, env=env)
     res = []
     for c, o in zip(cases, outs):
         try:
